@@ -14,7 +14,7 @@ import tomllib
 
 from .assemble import VERIF, REPO
 
-WORK = os.path.join(VERIF, ".work")
+from .assemble import WORKDIR as WORK
 REG = os.path.join(VERIF, "kani", "harnesses.toml")
 CRATE = os.path.join(REPO, "rust")
 
